@@ -74,7 +74,7 @@ class MessageProtocolEntity(ProtocolEntity):
                attribs["offline"] = "1" if self.offline else "0"
             if self.notify:
                 attribs["notify"] = self.notify
-            if self.retry:
+            if self.retry is not None:
                 attribs["retry"] = str(self.retry)
 
 
